@@ -26,10 +26,12 @@ PLAN = {
         "quick": [
             {"kind": "rapid", "test": "TestC05Extents", "checks": 100000},
             {"kind": "rapid", "test": "TestC05Join", "checks": 30000},
+            {"kind": "rapid", "test": "TestC05Typed", "checks": 40000},
         ],
         "thorough": [
             {"kind": "rapid", "test": "TestC05Extents", "checks": 400000, "shards": 16},
             {"kind": "rapid", "test": "TestC05Join", "checks": 200000, "shards": 8},
+            {"kind": "rapid", "test": "TestC05Typed", "checks": 300000, "shards": 8},
         ],
     },
     "C06": {
@@ -198,7 +200,7 @@ PLAN = {
 
 RULES = {
     "C12": "rapid, histories: 1-12 prior calls over all routes, weighted towards what can leave a pooled printer dirty (caught and propagating method panics, SafeFormat methods panicking mid-output, Safe/Unsafe overrides around user programs, bad verbs, %w use and misuse in HelperForErrorf, nested printers, outputs just below and above the 64 KiB pooling limit, error hook, registered types), with a probe after each call and then a battery of 15 fixed probe calls whose results are compared with references obtained on newly allocated printers (pool drained through the hook; GOMAXPROCS(1), GC off during a case so that the pool is not emptied behind the harness); a second generator compares the probes in a warm process with those printed by a freshly started subprocess. Non-trivial = the history contains an abnormal call and at least one probe ran on a recycled printer (no pool allocation during the probe, by the hook's counter). Schedules: 2-16 goroutines replay generated call lists concurrently (1/4 of the cases on one shared set of operand objects) with generated runtime.Gosched() injection; results are compared with single-threaded references, and the same property runs in a -race build where any race report is a violation; plus a fixed scenario (8 goroutines printing one StringBuilder with an open envelope). Non-trivial there = at least two calls actually overlapped (atomic phase counter). Distinct = distinct specs (64-bit fingerprint). The battery also holds probes that use 2 and 4 nested printers at once (reaching printers deeper in the pool) and print panicking Stringers inside nested printers; a fifth of the history calls is a Safe()/Unsafe()/bare re-entrant program whose nested Print/Printf meets a contained or a propagating panic. First use: each of 28 public entry points is the first library call of a freshly started process (made by one goroutine, and - in a race-detector build - by 8 goroutines at once), followed by all the others; results compared with a warm process. Concurrency cases take their sequential references after the concurrent phase and one in three lets several goroutines print a never-seen struct type with field names as their first call.",
-    "C05": "rapid: route (Sprintf, Fprintf, Sprint, Fprint, StringBuilder.Printf, SafePrinter.Printf) x 1-3 directives with flags/width/precision and a verb valid for its operand class (string verbs v s q x X, integer verbs v d b o O x X c q U, float verbs, bool verbs) x operands that are leaves or containers of leaves to depth 2 ([]interface{}, [2]interface{}, struct with interface fields, single-entry map[interface{}]interface{} incl. its key) x configuration (every subset of the registrable pool, registry reset per case through the hook). Leaves: plain and named basic kinds, named kinds with String/Error methods, SafeString/SafeInt/SafeUint/SafeFloat, SafeValue-marked kinds, registrable kinds, Safe(x), Unsafe(x), untyped nil, scripted SafeFormatters (flagless directives). Oracle: fmt renders the same shape with every leaf inside an extent wrapper (sentinel + fmt.FormatString forwarding); from it T (full text) and S (unsafe extents reduced to their line feeds) are read off, and strip(out) == esc(T), delEnv(out) == esc(S). Non-trivial = at least one safe and one unsafe leaf and (nesting or a flag/width/precision/non-v verb). Distinct = distinct specs (64-bit fingerprint). Leaves are also placed in reflect.Value operands (made from the value, or designating an interface-typed slot); the builtin types string and int are registered in one case in eight each. C05Join: JoinTo over []string, []int, []interface{}, named-string, error and registered-type slices and arrays on a StringBuilder and on a SafePrinter (after 0-2 prior writes), under all subsets of registered types incl. builtin string/int, compared with Print of each element (non-trivial = at least 2 elements and a registered type).",
+    "C05": "rapid: route (Sprintf, Fprintf, Sprint, Fprint, StringBuilder.Printf, SafePrinter.Printf) x 1-3 directives with flags/width/precision and a verb valid for its operand class (string verbs v s q x X, integer verbs v d b o O x X c q U, float verbs, bool verbs) x operands that are leaves or containers of leaves to depth 2 ([]interface{}, [2]interface{}, struct with interface fields, single-entry map[interface{}]interface{} incl. its key) x configuration (every subset of the registrable pool, registry reset per case through the hook). Leaves: plain and named basic kinds, named kinds with String/Error methods, SafeString/SafeInt/SafeUint/SafeFloat, SafeValue-marked kinds, registrable kinds, Safe(x), Unsafe(x), untyped nil, scripted SafeFormatters (flagless directives). Oracle: fmt renders the same shape with every leaf inside an extent wrapper (sentinel + fmt.FormatString forwarding); from it T (full text) and S (unsafe extents reduced to their line feeds) are read off, and strip(out) == esc(T), delEnv(out) == esc(S). Non-trivial = at least one safe and one unsafe leaf and (nesting or a flag/width/precision/non-v verb). Distinct = distinct specs (64-bit fingerprint). Leaves are also placed in reflect.Value operands (made from the value, or designating an interface-typed slot); the builtin types string and int are registered in one case in eight each. C05Join: JoinTo over []string, []int, []interface{}, named-string, error and registered-type slices and arrays on a StringBuilder and on a SafePrinter (after 0-2 prior writes), under all subsets of registered types incl. builtin string/int, compared with Print of each element (non-trivial = at least 2 elements and a registered type). C05Typed: two leaves (plain, named, registered, SafeValue-marked, wrapper, Stringer/error kinds) in a slice, array, map, struct or pointed-to struct whose slots have the leaves' own types and in the same container with interface-typed slots, under a generated directive without # and all subsets of registered types: both must print alike (non-trivial = a leaf is declared safe).",
     "C06": "rapid: x from the full value universe (1/2 of the cases) or the fmt-compatible one, including scripted Formatters that discover the SafePrinter behind their fmt.State and scripted SafeFormatters, both calling back through Print/Printf/Safe*/Unsafe*/Write with recursive operands, SafeValues, registered types, library-produced RedactableStrings, errors with an error hook installed; a directive without '*'; a wrapper chain W1(W2(W3(x))) of length 1-3; placed at top level, in a []interface{}, in an exported struct field or as a map value. Oracle: N - the chain prints exactly like W1(x); U1 - under an outermost Unsafe nothing of the rendering is outside envelopes (only the container's brackets and line feeds); U2 - at top level, for fmt-compatible x, the stripped text is what fmt prints for x; S1 - under an outermost Safe, for fmt-compatible x without classification of its own, no envelope and exactly fmt's characters (top level and in a slice); H - with a hook installed Unsafe(err) prints as without and the hook is not called. Non-trivial = x is itself classified (SafeValue, Safe-wrapped, registered, redactable, SafeFormatter, hooked error) or its method re-enters the printer. Distinct = distinct specs (64-bit fingerprint). Further placements: the wrapper inside a reflect.Value operand (made from it, or designating an interface-typed slot: Elem of a pointer to an interface, struct field, slice element), which must print like each other and, for pointer- and reflect.Value-free x, like fmt prints x as a slice element. One case in eight is a formatter that discovers the SafePrinter and makes a nested Printf with a missing operand, a bad argument index or an extra operand.",
     "C17": "rapid: configuration (hook installed with probability 0.9: a scripted function over the SafeWriter-op universe that can also emit the verb and err.Error(); registered safe types) x error values (value/pointer/errors.New/named-kind errors, wrapping, nil-receiver, error+Stringer, error+Formatter, error+SafeFormatter, error+SafeMessager) x positions (top level under every verb and flag incl. invalid and non-ASCII verbs, %T/%p, the %w of HelperForErrorf, []interface{}, []error, map values, exported and unexported struct fields, pointer to struct, arrays, reflect.Value, under Safe(), under Unsafe()) x routes (Sprint, Sprintf, Fprintf, HelperForErrorf). Oracle: output with the hook == output of the same shape with every dispatched error replaced by an error+SafeFormatter stand-in whose SafeFormat runs the hook's script (both shapes share all other objects); the hook is not called in the stand-in run (i.e. never for SafeFormatter/SafeMessager errors, %T/%p, unexported fields, under Unsafe()); the multiset of (error, verb) hook calls equals the stand-in's SafeFormat calls and their number equals the number of dispatched positions; Unsafe(err) prints as without hook and fully enveloped. Non-trivial = hook installed, at least one dispatched error, and not bare top-level %v. Distinct = distinct specs (64-bit fingerprint). A sixth of the hooks panics after its partial output (the stand-in then panics in SafeFormat; the two report names are identified); hooks may print the error's cause through the printer ('Cause' op: the hook is re-entered for it, chains of value-type uncomparable wrapping errors included) and operands of their own that are not errors, including ones whose methods panic. Error kinds also include byte-kinded errors alone and as the elements of a typed slice (a byte string under s/q/x/X: not dispatched there), named slice types whose nil value makes Error panic, and errors that are GoStringers.",
     "C08": "rapid: histories of 1-6 steps starting from a library-produced redactable r0 (Sprint/Sprintf of generated operands: envelopes, line feeds, escaped markers, empty); each step applies one of 31 re-print / join / container compositions (Sprint, Sprint of ToBytes, Sprintf with literals around any directive except %T/%p incl. flags, width, precision, '*', odd verbs; reflect.ValueOf; Safe(); Join/JoinTo with safe or unsafe delimiters on a builder and on a SafePrinter; StringBuilder.Print/Printf; printing a StringBuilder by value and by pointer; SafePrinter.Print/Printf; []RedactableString, [2]RedactableString, []interface{}, map values, struct fields exported / unexported / interface-typed, pointer to struct, %+v, %#v) and the result becomes the next r. Oracle per step: the result equals the literal concatenation of its pieces (identity for re-printing), and Redact / StripMarkers applied to the result equal the concatenation of their application to the pieces. Non-trivial = the redactable contains an envelope, an escaped marker or a line feed and the step is not bare %v/Sprint. Distinct = distinct specs (64-bit fingerprint).",
